@@ -962,9 +962,34 @@ namespace fsh
         }
     }
 
+    inline void put_sp(std::ostream& os, double v)
+    {
+        os << ' ' << hexd(v);
+    }
+    template <class A>
+    auto put_sp(std::ostream& os, const A& a) -> decltype(a.begin(), void())
+    {
+        for (auto v : a)
+            os << ' ' << hexd(v);
+    }
+    // the spacing accessor of structured grids (the distances reported for neighbours must be the
+    // step lengths derived from it); meshes have none
+    template <class G>
+    auto put_spacing(G& grid, std::ostream& os, int) -> decltype(grid.spacing(), void())
+    {
+        os << "O spacing";
+        put_sp(os, grid.spacing());
+        os << "\n";
+    }
+    template <class G>
+    void put_spacing(G&, std::ostream&, long)
+    {
+    }
+
     template <class G>
     void grid_common(G& grid, std::ostream& os)
     {
+        put_spacing(grid, os, 0);
         os << "O size " << grid.size() << "\n";
         os << "O nmax " << static_cast<int>(G::n_neighbors_max()) << "\n";
         os << "O status";
